@@ -41,7 +41,8 @@ from .common import Result
 
 PROP = "C14"
 RULE = ("movie stream: 2-D uint8 movies 32-64 px, 3-6 frames, 1-6 Gaussian blobs (sigma 1.2-2, "
-        "amplitude 90-250) + noise texture (none / uniform / salt / offset), search_range and "
+        "amplitude 90-250) + noise texture (none / uniform / salt / offset; per-frame background "
+        "flicker), search_range and "
         "separation on a 1/4 grid (scalar, per-axis, fractional), diameter default or explicit, "
         "memory 0-1, preprocess on/off, fault pattern none/one/all/random; regimes sep (recovery "
         "asserted) and adv (admissibility only; margins, approaching pairs, shortage 2).  call "
@@ -117,8 +118,8 @@ def radius_of(inp):
     return [int(float(Fraction(x)) // 2) for x in d]
 
 
-def render(shape, blobs, noise):
-    img = np.zeros(shape, dtype=np.float64)
+def render(shape, blobs, noise, offset=0):
+    img = np.zeros(shape, dtype=np.float64) + offset
     yy, xx = np.mgrid[0:shape[0], 0:shape[1]]
     for (y, x, amp, sig) in blobs:
         img += amp * np.exp(-((yy - y) ** 2 + (xx - x) ** 2) / (2.0 * sig * sig))
@@ -629,7 +630,11 @@ def gen_movie(rng, regime):
                 else:
                     b[0] += rng.randint(-int(sr[0]), int(sr[0]))
                     b[1] += rng.randint(-int(sr[1]), int(sr[1]))
-    inp = dict(stream="movie", regime=regime, shape=[H, W], frames=frames,
+    flicker = None
+    if regime == "adv" and rng.random() < 0.4:
+        # the background level changes from frame to frame (the threshold is per frame)
+        flicker = [rng.choice([0, 0, 3, 10, 25]) for _ in range(nfr)]
+    inp = dict(stream="movie", regime=regime, shape=[H, W], frames=frames, flicker=flicker,
                noise=dict(noise, seed=rng.randrange(10 ** 6)), memory=rng.choice([0, 0, 1]),
                minmass=minmass, preprocess=preprocess, pct=64,
                withhold=dict(mode=rng.choice(["none", "one", "one", "all", "random30", "random30",
@@ -807,7 +812,8 @@ def run_find_link(inp, store, log):
     import random as _random
     import trackpy as tp
     shape = tuple(inp["shape"])
-    reader = [Img(render(shape, fr, dict(inp["noise"], seed=inp["noise"]["seed"] + k)), k)
+    flicker = inp.get("flicker") or [0] * len(inp["frames"])
+    reader = [Img(render(shape, fr, dict(inp["noise"], seed=inp["noise"]["seed"] + k), flicker[k]), k)
               for k, fr in enumerate(inp["frames"])]
     wh = inp["withhold"]
 
